@@ -451,7 +451,13 @@ func stackWorker(w *vf.Worker) {
 		if re != nil {
 			nerrs++
 		}
-		if d, ok := r.observe(); !ok {
+		var d string
+		var ok bool
+		if p, _ := vf.Try(func() { d, ok = r.observe() }); p != nil {
+			w.Violation("stack[panic-on-get]:"+key(), fmt.Sprintf("after [%s] Stack.Get panics: %v", describe(seq), p), map[string]any{"ops": describe(seq)})
+			return false
+		}
+		if !ok {
 			w.Violation("stack[state]:"+key(), fmt.Sprintf("after [%s]: %s", describe(seq), d), map[string]any{"ops": describe(seq)})
 			return false
 		}
